@@ -106,7 +106,7 @@ def group_vectors(vs):
         g["vectors"].append(v)
     out = list(groups.values())
     for gid, g in enumerate(out):
-        g["gid"] = ("R%d" % gid) if g["inner"] == "given" else gid
+        g["gid"] = g["vectors"][0].get("pin_gid") or (("R%d" % gid) if g["inner"] == "given" else gid)
         g["pinned"] = g["inner"] == "given" or any(v.get("pin") for v in g["vectors"])
     return out
 
